@@ -122,18 +122,51 @@ def _(c):
     c.ensures("result == [n in ([self] +) Pre(self) | n.data_id == id][:k] by identity, in order (k = 0 or None: no limit)", post)
 
 
-@contract(NQ + "find_first", props=("C09",))
+@contract(NQ + "find_first", props=("C09", "C02"))
 def _(c):
+    """data / data_id path proved against Node.find_all's contract (limit 1): the first node of Pre(self) that
+    carries the id, None if there is none.  The match path is assumed (bounded tier), see Node.find_all."""
     c.param("self", "node").param("data", "none", "data").param("match", "none", "cb").param("data_id", "none", "id")
+    c.families = ("plain",)
     c.result_tag = "node?"
     c.modifies("llen", "litem", "lalloc")
-    c.assumed = True
-    c.assumed_reason = "see Node.find_all"
-    c.ensures("pre-existing lists unchanged", lambda x: unchanged_lists(x))
-    c.may_raise("Callback", ensures=None)
+    c.assumed_variants = lambda tags: tags["data"] == "none" and tags["data_id"] == "none"
+    c.assumed_variants_reason = "Node.find_first(match=...): see Node.find_all"
+    c.requires("wf, self in P(T)", lambda x: And(wf0(x), self_in_P(x)))
     _both = lambda x: x.a.tag("data") != "none" and x.a.tag("data_id") != "none"  # noqa: E731
     _idpath = lambda x: x.a.tag("data") != "none" or x.a.tag("data_id") != "none"  # noqa: E731
     c.raises("AssertionError", when=lambda x: z3.BoolVal(_both(x) or (_idpath(x) and x.a.tag("match") != "none")), ensures=unchanged_all, props=("C13",))
+    c.may_raise("Callback", ensures=None, name="callback raises")
+
+    def post(x):
+        if not _idpath(x):
+            return unchanged_lists(x)
+        h0 = x.h0
+        seq = L.pre_post(h0)[0](x.a.self)
+        n = L.Len(seq)
+        item = lambda k: L.At(seq, k)  # noqa: E731
+        did = id_of(x)
+        phi = lambda y: L.v_eq(h0._data_id(y), did)  # noqa: E731
+        k, m = L.fresh("k", I), L.fresh("m", I)
+        none_case = ForAll([k], Implies(And(0 <= k, k < n), Not(phi(item(k)))), patterns=[item(k)])
+        if x.res.tag == "none":
+            return And(unchanged_lists(x), none_case)
+        r = x.r
+        import contracts.vocab as V
+
+        if V.RT_EVAL is not None:  # run-time cross-check: decided directly on the snapshot
+            E = V.RT_EVAL
+            first = next((E.value(item(z3.IntVal(kk))) for kk in range(E.value(n)) if E.holds(phi(item(z3.IntVal(kk))))), None)
+            return And(unchanged_lists(x), z3.BoolVal(first is not None and E.value(r) is first))
+        # the position of the result in Pre(self) is witnessed by the embedding of find_all's (one-element) result
+        from .typed_queries import last_filter
+
+        emb, _inv = last_filter(x)
+        m = emb(0)
+        hit = And(0 <= m, m < n, item(m) == r, phi(r), ForAll([k], Implies(And(0 <= k, k < m), Not(phi(item(k)))), patterns=[item(k)]))
+        return And(unchanged_lists(x), hit)
+
+    c.ensures("result == first node of Pre(self) with that data_id, None if there is none", post)
 
 
 @contract(TQ + "find_all", props=("C02", "C09"))
